@@ -332,6 +332,42 @@ def api_ops():
 
 
 API_OPS = api_ops()
+# symbolic links in the tree (to a file, to a directory, to nothing): made by the fixture, there is no verb for them
+LINKS = {"lf": "a/x", "ld": "a", "dangling": "nowhere"}
+LINK_UNIVERSE = ["lf", "ld", "ld/x", "dangling", "a/x", "a"]
+
+
+def link_ops():
+    ops = []
+    for p in LINK_UNIVERSE:
+        ops += [("exists", p), ("is_dir", p), ("is_file", p), ("rmdir", p), ("unlink", p), ("list", p), ("stat", p),
+                ("mkdir", p, False, False), ("mkdir", p, True, True)]
+        for mode in ("rb", "wb", "ab", "r+b"):
+            ops.append(("open", p, mode, 0, "read"))
+            ops.append(("open", p, mode, 2, "write"))
+    for s_, d in itertools.permutations(["lf", "ld", "dangling", "a/x", "new"], 2):
+        if s_ != "new":
+            ops.append(("rename", s_, d))
+    return ops
+
+
+LINK_OPS = link_ops()
+
+
+def snapshot_links(root):
+    import os
+    out = {}
+    for dirpath, dirnames, filenames in os.walk(root):
+        for name in dirnames + filenames:
+            full = os.path.join(dirpath, name)
+            rel = "/" + os.path.relpath(full, root)
+            if os.path.islink(full):
+                out[rel] = ("link", os.readlink(full))
+            elif os.path.isdir(full):
+                out[rel] = None
+            else:
+                out[rel] = open(full, "rb").read()
+    return out
 
 
 async def api_apply(pio, root, op):
@@ -351,7 +387,8 @@ async def api_apply(pio, root, op):
         if name == "stat":
             st = await pio.stat(p)
             import stat as _s
-            return ("ok", ("dir", None) if _s.S_ISDIR(st.st_mode) else ("file", st.st_size))
+            return ("ok", ("dir", None) if _s.S_ISDIR(st.st_mode) else ("file" if _s.S_ISREG(st.st_mode) else _s.S_IFMT(st.st_mode),
+                                                                         st.st_size))
         if name == "rename":
             await pio.rename(p, root / op[2])
             return ("ok", None)
@@ -374,13 +411,21 @@ def api_run(kind, hist):
     import aioftp
     with backends.TempDir() as root:
         backends.populate_fs(root, TREE)
+        links = bool(hist) and hist[0][0] == "@links"
+        if links:
+            import os
+            for name, target in LINKS.items():
+                os.symlink(target, str(root / name))
         w = World()
         try:
             pio = aioftp.PathIO() if kind == "pathio" else aioftp.AsyncPathIO()
             out = []
             for op in hist:
+                if op[0] == "@links":
+                    out.append((("ok", None), snapshot_links(root)))
+                    continue
                 r = w.run(api_apply(pio, root, op))
-                out.append((r, backends.snapshot_fs(root)))
+                out.append((r, snapshot_links(root) if links else backends.snapshot_fs(root)))
             return out
         finally:
             w.close()
@@ -409,10 +454,11 @@ def api_expand(hist):
     return part, key, bad
 
 
-def api_bfs(depth, cap):
+def api_bfs(depth, cap, ops=None, start=None, label="api"):
+    ops = API_OPS if ops is None else ops
     total = report.Partial()
     seen = set()
-    frontier = [[]]
+    frontier = [list(start or [])]
     for level in range(depth + 1):
         results = report.pmap(api_expand, frontier)
         nxt = []
@@ -422,14 +468,14 @@ def api_bfs(depth, cap):
                 continue
             seen.add(key)
             if level < depth:
-                for op in API_OPS:
+                for op in ops:
                     nxt.append(h + [op])
-        total.counters[f"api_bfs_level{level}"] = len(frontier)
+        total.counters[f"{label}_bfs_level{level}"] = len(frontier)
         if len(nxt) > cap:
             total.caps.append({"api_bfs_level": level + 1, "frontier": len(nxt), "cap": cap})
             nxt = nxt[:cap]
         frontier = nxt
-    total.counters["api_bfs_distinct_trees"] = len(seen)
+    total.counters[f"{label}_bfs_distinct_trees"] = len(seen)
     return total
 
 
@@ -438,6 +484,8 @@ def run(tier, seed, t0):
         parts = [bfs(2, 30000), api_bfs(2, 20000)]
     else:
         parts = [bfs(4, 300000), api_bfs(3, 200000)]
+    parts.append(api_bfs(2 if tier == "quick" else 3, 20000 if tier == "quick" else 200000, ops=LINK_OPS,
+                         start=[("@links",)], label="api_links"))
     parts.append(two_sessions(tier))
     parts += report.pmap(timeout_work, [(sym, 1 if tier == "quick" else 3) for sym in TIMEOUT_SYMS])
     part = report.merge_all(parts)
